@@ -1,11 +1,12 @@
 #!/bin/bash
 # Runs hmclab's pinned test suite with the verification guard OFF, in a scratch copy of /repo
-# (the suite rewrites notebooks/tutorials/*.ipynb in place), and removes the copy afterwards.
+# (the suite rewrites notebooks/tutorials/*.ipynb in place), compares with BASELINE.json
+# (no stable_pass test may fail or error) and removes the copy afterwards.
 set -u
 unset HMCLAB_VERIF
 S=$(mktemp -d /var/tmp/hmclab_baseline.XXXXXX)
 trap 'rm -rf "$S"' EXIT
 rsync -a --exclude .git /repo/ "$S/repo/"
-cd "$S/repo" && /venv/bin/python -m pytest -ra -q -p no:cacheprovider --timeout=900 --continue-on-collection-errors --junitxml="${1:-$S/junit.xml}" -x -q 2>&1 | tail -15
-rc=${PIPESTATUS[0]}
-exit $rc
+J="${1:-$S/junit.xml}"
+( cd "$S/repo" && /venv/bin/python -m pytest -ra -q -p no:cacheprovider --timeout=900 --continue-on-collection-errors --junitxml="$J" 2>&1 | tail -8 )
+python3 /verif/tools/baseline_compare.py "$J" /root/.vp/BASELINE.json
